@@ -49,8 +49,12 @@ func (g *vfE4Gen) reset() {
 	}
 }
 
+// slot 0 talks over pipe connections (even ids), the other slots over real TCP connections
 func (g *vfE4Gen) id(s int) int {
 	if g.slot[s] == 0 {
+		for vfE4IsPipeID(g.nextID) != (s == 0) {
+			g.nextID++
+		}
 		g.slot[s] = g.nextID
 		g.nextID++
 	}
@@ -88,6 +92,23 @@ func (g *vfE4Gen) line(op vfE4Op) string {
 		return l
 	case "ping":
 		return fmt.Sprintf("%d ping %d", now, g.id(op.slot))
+	case "abort-identify", "abort-register", "abort-unregister", "abort-ping":
+		// send the command, close without reading its answer (pipe connections only)
+		id := g.id(op.slot)
+		g.slot[op.slot] = 0
+		g.ident[op.slot] = false
+		switch op.kind {
+		case "abort-identify":
+			sl := vfE4Slots[op.slot]
+			return fmt.Sprintf("%d abort %d identify %s %s %s %d %d", now, id, vfE4H(sl.bc), vfE4H(sl.ho), vfE4H(sl.ve), sl.tcp, sl.http)
+		case "abort-ping":
+			return fmt.Sprintf("%d abort %d ping", now, id)
+		}
+		l := fmt.Sprintf("%d abort %d %s %s", now, id, strings.TrimPrefix(op.kind, "abort-"), vfE4H(op.a))
+		if op.b != "" {
+			l += " " + vfE4H(op.b)
+		}
+		return l
 	case "disconnect":
 		if g.slot[op.slot] == 0 {
 			return fmt.Sprintf("%d q", now)
@@ -126,6 +147,11 @@ func vfE4Alphabet(kind string) []vfE4Op {
 				ops = append(ops, vfE4Op{kind: "register", slot: s, a: t, b: c}, vfE4Op{kind: "unregister", slot: s, a: t, b: c})
 			}
 		}
+	}
+	// slot 0 can also go away while an answer is pending (close without reading it)
+	ops = append(ops, vfE4Op{kind: "abort-identify", slot: 0}, vfE4Op{kind: "abort-register", slot: 0, a: "t", b: "c"})
+	if kind != "small" {
+		ops = append(ops, vfE4Op{kind: "abort-ping", slot: 0}, vfE4Op{kind: "abort-unregister", slot: 0, a: "t", b: "c"})
 	}
 	for _, t := range topics {
 		ops = append(ops, vfE4Op{kind: "createTopic", slot: -1, a: t}, vfE4Op{kind: "deleteTopic", slot: -1, a: t})
@@ -200,6 +226,10 @@ func vfE4RandomOp(r *vfRand, nslots int) vfE4Op {
 	case 9:
 		return vfE4Op{kind: "ping", slot: s}
 	case 10:
+		if r.Intn(2) == 0 {
+			k := []string{"abort-identify", "abort-register", "abort-unregister", "abort-ping"}[r.Intn(4)]
+			return vfE4Op{kind: k, slot: 0, a: t, b: c}
+		}
 		return vfE4Op{kind: "disconnect", slot: s}
 	case 11:
 		return vfE4Op{kind: "createTopic", slot: -1, a: t}
@@ -236,6 +266,9 @@ func TestVerifE4Random(t *testing.T) {
 			op := vfE4RandomOp(r, 3)
 			// mostly-valid: registering on an unidentified slot closes it; keep that rare
 			if (op.kind == "register" || op.kind == "unregister") && !g.ident[op.slot] && r.Intn(8) != 0 {
+				op = vfE4Op{kind: "identify", slot: op.slot}
+			}
+			if strings.HasPrefix(op.kind, "abort-") && op.kind != "abort-identify" && !g.ident[op.slot] && r.Intn(8) != 0 {
 				op = vfE4Op{kind: "identify", slot: op.slot}
 			}
 			line := g.line(op)
